@@ -395,3 +395,27 @@ Definition enc_out (o : out) : list Z :=
   | OSigs l => 3%Z :: Z.of_nat (length l) :: flat_map enc_sig l
   end.
 Definition enc_outs (l : list out) : list Z := flat_map enc_out l.
+
+(* ---------------------------------------------------------------- noise epochs (observation of the state)
+   The draw index of the noise master held after each operation of a history (None = no master).  A master
+   gets the next unused index when it is created, so the index identifies the noise epoch; the harness compares
+   this trace with the identity of the implementation's _noise_master objects. *)
+Fixpoint run_masters (c : config) (st : astate) (h : list op) : list (option nat) :=
+  match h with
+  | [] => []
+  | o :: h' => let st1 := fst (step c st o) in
+               option_map fst (noise_master st1) :: run_masters c st1 h'
+  end.
+
+Fixpoint s_run_masters (sc : sconfig) (st : sstate) (h : list op) : list (option nat) :=
+  match h with
+  | [] => []
+  | o :: h' => let st1 := fst (s_step sc st o) in
+               option_map fst (noise_master (ant st1)) :: s_run_masters sc st1 h'
+  end.
+
+(* noisy configuration used for that comparison: the "noise" of draw k is the constant k *)
+Definition cfg_epoch (inv : bool) : config := mkConfig true trig_always (fun k _ _ => nat_Q k) inv.
+
+Definition enc_masters (l : list (option nat)) : list Z :=
+  map (fun o => match o with None => (-1)%Z | Some k => Z.of_nat k end) l.
